@@ -127,3 +127,842 @@ Proof.
   induction n as [|n IH]; intro Hn; [lia|]. simpl. rewrite circ_leaves_app, in_app_iff.
   destruct n as [|n]; [simpl; tauto|]. rewrite IH by lia. tauto.
 Qed.
+
+(* ---- what the one-level transformations do to the keys an operation reports ---- *)
+Lemma key_map_nil k : key_map [] k = k.
+Proof. destruct k. reflexivity. Qed.
+
+Definition id_prefixes (f : subf) : list (list string) :=
+  match ids f with
+  | Some l => if use_ids f then map (fun id => [id]) l else [[]]
+  | None => [[]]
+  end.
+
+Lemma sub_keys_in f ck k :
+  In k (sub_keys f ck) <->
+  exists k0 p, In k0 ck /\ In p (id_prefixes f) /\ k = key_map (km f) (key_prefix (ppath f) (key_prefix p k0)).
+Proof.
+  unfold sub_keys, id_prefixes. rewrite in_map_iff. split.
+  - intros [k1 [E H]]. apply in_map_iff in H. destruct H as [k2 [E2 H]]. subst.
+    destruct (ids f) as [l|].
+    + destruct ck as [|c0 ck']; [destruct H|]. cbn [isnil negb andb] in H. destruct (use_ids f).
+      * apply in_concat_map in H. destruct H as [id [Hid H]]. apply in_map_iff in H. destruct H as [k0 [E0 H0]]. subst.
+        exists k0, [id]. split; [exact H0|]. split; [apply in_map_iff; exists id; split; [reflexivity | exact Hid] | reflexivity].
+      * exists k2, []. split; [exact H|]. split; [left; reflexivity | rewrite key_prefix_nil; reflexivity].
+    + exists k2, []. split; [exact H|]. split; [left; reflexivity | rewrite key_prefix_nil; reflexivity].
+  - intros [k0 [p [H0 [Hp E]]]]. subst. exists (key_prefix (ppath f) (key_prefix p k0)). split; [reflexivity|].
+    apply in_map. destruct (ids f) as [l|].
+    + destruct ck as [|c0 ck']; [destruct H0|]. cbn [isnil negb andb]. destruct (use_ids f).
+      * apply in_map_iff in Hp. destruct Hp as [id [E Hid]]. subst. apply in_concat_map. exists id. split; [exact Hid|].
+        apply in_map. exact H0.
+      * destruct Hp as [<-|[]]. rewrite key_prefix_nil. exact H0.
+    + destruct Hp as [<-|[]]. rewrite key_prefix_nil. exact H0.
+Qed.
+
+Definition body_keys (c : circ) : list mkey := List.concat (map (fun m => List.concat (map op_mkeys m)) c).
+Definition body_names (c : circ) : list string := List.concat (map (fun m => List.concat (map op_names m)) c).
+
+Lemma body_keys_in c k : In k (body_keys c) <-> exists m o, In m c /\ In o m /\ In k (op_mkeys o).
+Proof.
+  unfold body_keys. rewrite in_concat_map. split.
+  - intros [m [Hm H]]. apply in_concat_map in H. destruct H as [o [Ho H]]. exists m, o. auto.
+  - intros [m [o [Hm [Ho H]]]]. exists m. split; [exact Hm|]. apply in_concat_map. exists o. auto.
+Qed.
+Lemma body_names_in c s : In s (body_names c) <-> exists m o, In m c /\ In o m /\ In s (op_names o).
+Proof.
+  unfold body_names. rewrite in_concat_map. split.
+  - intros [m [Hm H]]. apply in_concat_map in H. destruct H as [o [Ho H]]. exists m, o. auto.
+  - intros [m [o [Hm [Ho H]]]]. exists m. split; [exact Hm|]. apply in_concat_map. exists o. auto.
+Qed.
+
+Lemma op_mkeys_sub c f : op_mkeys (OSub c f) = sub_keys f (key_nodup (body_keys c)).
+Proof. reflexivity. Qed.
+Lemma op_names_sub c f : op_names (OSub c f) = map (name_map (km f)) (body_names c).
+Proof. reflexivity. Qed.
+
+(* the names of the measured keys are among the names the operation touches *)
+Lemma op_mkeys_names : forall o k, In k (op_mkeys o) -> In (kname k) (op_names o).
+Proof.
+  induction o as [l|c f IH] using op_ind'; intros k H.
+  - simpl in *. apply in_app_iff. left. apply in_map. exact H.
+  - rewrite op_mkeys_sub in H. rewrite op_names_sub. apply sub_keys_in in H.
+    destruct H as [k0 [p [H0 [_ E]]]]. subst. apply (proj1 (key_nodup_in _ _)) in H0. apply (proj1 (body_keys_in _ _)) in H0.
+    destruct H0 as [m [o [Hm [Ho Hk]]]]. simpl. apply in_map. apply body_names_in. exists m, o. split; [exact Hm|].
+    split; [exact Ho|]. rewrite Forall_forall in IH. specialize (IH m Hm). rewrite Forall_forall in IH. apply (IH o Ho). exact Hk.
+Qed.
+
+Lemma op_names_nil_keys o : op_names o = [] -> op_mkeys o = [].
+Proof.
+  intro H. destruct (op_mkeys o) as [|k r] eqn:E; [reflexivity|].
+  assert (In (kname k) (op_names o)) by (apply op_mkeys_names; rewrite E; left; reflexivity). rewrite H in H0. destruct H0.
+Qed.
+
+Lemma mkeys_qmap g o : op_mkeys (t_qmap g o) = op_mkeys o.
+Proof. destruct o; reflexivity. Qed.
+
+Lemma mkeys_inv o o' : t_inv o = Ok o' -> op_mkeys o' = op_mkeys o.
+Proof.
+  destruct o as [l|c f]; simpl.
+  - destruct (isnil (lmk l) && isnil (lcs l)); [|discriminate]. intro H. inversion H. reflexivity.
+  - destruct (match reps f with RInt n => if 0 <? n then forallb (fun m => forallb op_invertible m) c else true
+                          | RSym _ _ => true end); [|discriminate]. intro H. inversion H. reflexivity.
+Qed.
+
+Lemma mkeys_resolve pm o : op_mkeys (t_resolve pm o) = op_mkeys o.
+Proof. destruct o; reflexivity. Qed.
+
+Lemma mkeys_rescope kK kM path b o : op_mkeys (t_rescope kK kM path b o) = map (key_prefix path) (op_mkeys o).
+Proof.
+  destruct o as [l|c f]; [reflexivity|].
+  cbn [t_rescope]. rewrite !op_mkeys_sub. unfold sub_keys. cbn [ids use_ids km ppath set_scope].
+  rewrite !map_map. apply map_ext. intro k. rewrite <- key_prefix_assoc, key_map_prefix_commute. reflexivity.
+Qed.
+
+Lemma mkeys_kmap kK kM m o k :
+  In k (op_mkeys (t_kmap kK kM m o)) <-> exists k0, In k0 (op_mkeys o) /\ k = key_map m k0.
+Proof.
+  destruct o as [l|c f].
+  - simpl. rewrite in_map_iff. split; intros [k0 [H1 H2]]; exists k0; auto.
+  - cbn [t_kmap]. rewrite !op_mkeys_sub. split.
+    + intro H. apply sub_keys_in in H. destruct H as [k0 [p [H0 [Hp E]]]]. cbn [km ppath set_km] in E.
+      exists (key_map (km f) (key_prefix (ppath f) (key_prefix p k0))). split.
+      * apply sub_keys_in. exists k0, p. split; [exact H0|]. split; [exact Hp | reflexivity].
+      * subst. apply key_map_compose. simpl. apply str_nodup_in. apply (proj1 (key_nodup_in _ _)) in H0. apply (proj1 (body_keys_in _ _)) in H0.
+        destruct H0 as [mo [o [Hm [Ho Hk]]]]. apply body_names_in. exists mo, o. split; [exact Hm|]. split; [exact Ho|].
+        apply op_mkeys_names. exact Hk.
+    + intros [k1 [H E]]. apply sub_keys_in in H. destruct H as [k0 [p [H0 [Hp E1]]]]. subst.
+      apply sub_keys_in. exists k0, p. split; [exact H0|]. split; [exact Hp|]. cbn [km ppath set_km]. symmetry.
+      apply key_map_compose. simpl. apply str_nodup_in. apply (proj1 (key_nodup_in _ _)) in H0. apply (proj1 (body_keys_in _ _)) in H0.
+      destruct H0 as [mo [o [Hm [Ho Hk]]]]. apply body_names_in. exists mo, o. split; [exact Hm|]. split; [exact Ho|].
+      apply op_mkeys_names. exact Hk.
+Qed.
+
+(* ---- circuit-level: keys reported by the operations of the mapped loops ---- *)
+Lemma Forall2_in_l {A B} (R : A -> B -> Prop) l l' : Forall2 R l l' -> forall x, In x l -> exists y, In y l' /\ R x y.
+Proof.
+  induction 1 as [|a b l l' Hab H IH]; intros x Hx; [destruct Hx|].
+  destruct Hx as [->|Hx]; [exists b; split; [left; reflexivity | exact Hab]|].
+  destruct (IH x Hx) as [y [Hy Hr]]. exists y. split; [right; exact Hy | exact Hr].
+Qed.
+Lemma Forall2_in_r {A B} (R : A -> B -> Prop) l l' : Forall2 R l l' -> forall y, In y l' -> exists x, In x l /\ R x y.
+Proof.
+  induction 1 as [|a b l l' Hab H IH]; intros y Hy; [destruct Hy|].
+  destruct Hy as [->|Hy]; [exists a; split; [left; reflexivity | exact Hab]|].
+  destruct (IH y Hy) as [x [Hx Hr]]. exists x. split; [right; exact Hx | exact Hr].
+Qed.
+
+Lemma body_keys_map_ext (F : op -> op) (R : mkey -> mkey -> Prop) c :
+  (forall o k, In k (op_mkeys (F o)) <-> exists k0, In k0 (op_mkeys o) /\ R k0 k) ->
+  forall k, In k (body_keys (map (map F) c)) <-> exists k0, In k0 (body_keys c) /\ R k0 k.
+Proof.
+  intros HF k. rewrite body_keys_in. split.
+  - intros [m [o [Hm [Ho Hk]]]]. apply in_map_iff in Hm. destruct Hm as [m0 [E Hm0]]. subst.
+    apply in_map_iff in Ho. destruct Ho as [o0 [E Ho0]]. subst. apply HF in Hk. destruct Hk as [k0 [Hk0 Hr]].
+    exists k0. split; [|exact Hr]. apply body_keys_in. exists m0, o0. auto.
+  - intros [k0 [Hk0 Hr]]. apply body_keys_in in Hk0. destruct Hk0 as [m [o [Hm [Ho Hk]]]].
+    exists (map F m), (F o). split; [apply in_map; exact Hm|]. split; [apply in_map; exact Ho|].
+    apply HF. exists k0. auto.
+Qed.
+
+Lemma body_keys_qmap g c k : In k (body_keys (map (map (t_qmap g)) c)) <-> In k (body_keys c).
+Proof.
+  rewrite (body_keys_map_ext (t_qmap g) eq).
+  - split; [intros [k0 [H ->]]; exact H | intro H; exists k; auto].
+  - intros o k'. rewrite mkeys_qmap. split; [intro H; exists k'; auto | intros [k0 [H ->]]; exact H].
+Qed.
+Lemma body_keys_resolve pm c k : In k (body_keys (map (map (t_resolve pm)) c)) <-> In k (body_keys c).
+Proof.
+  rewrite (body_keys_map_ext (t_resolve pm) eq).
+  - split; [intros [k0 [H ->]]; exact H | intro H; exists k; auto].
+  - intros o k'. rewrite mkeys_resolve. split; [intro H; exists k'; auto | intros [k0 [H ->]]; exact H].
+Qed.
+
+Lemma moment_kmap_keys kK kM m o k :
+  In k (op_mkeys (if isnil (op_names o) then o else t_kmap kK kM m o)) <-> exists k0, In k0 (op_mkeys o) /\ key_map m k0 = k.
+Proof.
+  destruct (op_names o) as [|s r] eqn:E; cbn [isnil].
+  - rewrite (op_names_nil_keys o E). split; [intros [] | intros [k0 [[] _]]].
+  - rewrite mkeys_kmap. split; intros [k0 [H1 H2]]; exists k0; auto.
+Qed.
+Lemma body_keys_kmap kK kM m c k :
+  In k (body_keys (map (moment_kmap kK kM m) c)) <-> exists k0, In k0 (body_keys c) /\ key_map m k0 = k.
+Proof.
+  unfold moment_kmap. apply (body_keys_map_ext (fun o => if isnil (op_names o) then o else t_kmap kK kM m o)
+                                             (fun k0 k => key_map m k0 = k)).
+  intros o k'. apply moment_kmap_keys.
+Qed.
+
+Lemma body_keys_inv c c' k : circ_inv c = Ok c' -> (In k (body_keys c') <-> In k (body_keys c)).
+Proof.
+  unfold circ_inv. intro H. apply mapM_ok in H. rewrite !body_keys_in. split.
+  - intros [m' [o' [Hm [Ho Hk]]]]. destruct (Forall2_in_r _ _ _ H m' Hm) as [m [Hmr Hmm]].
+    apply mapM_ok in Hmm. destruct (Forall2_in_r _ _ _ Hmm o' Ho) as [o [Hom Hoo]].
+    exists m, o. split; [apply in_rev; exact Hmr|]. split; [exact Hom|]. rewrite <- (mkeys_inv o o' Hoo). exact Hk.
+  - intros [m [o [Hm [Ho Hk]]]]. apply in_rev in Hm. destruct (Forall2_in_l _ _ _ H m Hm) as [m' [Hm' Hmm]].
+    apply mapM_ok in Hmm. destruct (Forall2_in_l _ _ _ Hmm o Ho) as [o' [Ho' Hoo]].
+    exists m', o'. split; [exact Hm'|]. split; [exact Ho'|]. rewrite (mkeys_inv o o' Hoo). exact Hk.
+Qed.
+
+Lemma body_keys_rescope kK kM path : forall c b k,
+  In k (body_keys (circ_rescope kK kM path b c)) <-> exists k0, In k0 (body_keys c) /\ k = key_prefix path k0.
+Proof.
+  induction c as [|m c IH]; intros b k.
+  - simpl. split; [intros [] | intros [k0 [[] _]]].
+  - cbn [circ_rescope]. unfold body_keys in *. cbn [map List.concat]. rewrite !in_app_iff, IH. split.
+    + intros [H|[k0 [H E]]].
+      * apply in_concat_map in H. destruct H as [o' [Ho' Hk]]. apply in_map_iff in Ho'. destruct Ho' as [o [E Ho]]. subst.
+        rewrite mkeys_rescope in Hk. apply in_map_iff in Hk. destruct Hk as [k0 [E Hk0]]. exists k0. split; [|auto].
+        apply in_app_iff. left. apply in_concat_map. exists o. auto.
+      * exists k0. split; [apply in_app_iff; right; exact H | exact E].
+    + intros [k0 [H E]]. apply in_app_iff in H. destruct H as [H|H].
+      * left. apply in_concat_map in H. destruct H as [o [Ho Hk]]. apply in_concat_map. exists (t_rescope kK kM path b o).
+        split; [apply in_map; exact Ho|]. rewrite mkeys_rescope. subst. apply in_map. exact Hk.
+      * right. exists k0. auto.
+Qed.
+
+Lemma any_loop_keys kK kM c f a k :
+  any_loop kK kM c f = Ok a -> (In k (body_keys a) <-> exists k0, In k0 (body_keys c) /\ k = key_map (km f) k0).
+Proof.
+  unfold any_loop. intro H.
+  set (c1 := if isnil (qm f) then c else map (map (t_qmap (zlookup (qm f)))) c) in *.
+  assert (H1 : forall k, In k (body_keys c1) <-> In k (body_keys c)).
+  { intro k'. unfold c1. destruct (isnil (qm f)); [tauto | apply body_keys_qmap]. }
+  destruct (if rep_negative (reps f) then circ_inv c1 else Ok c1) as [c2| |] eqn:E2; simpl in H; try discriminate.
+  assert (H2 : forall k, In k (body_keys c2) <-> In k (body_keys c)).
+  { intro k'. rewrite <- H1. destruct (rep_negative (reps f)); [apply body_keys_inv; exact E2 | inversion E2; tauto]. }
+  set (c3 := if isnil (km f) then c2 else map (moment_kmap kK kM (km f)) c2) in *.
+  assert (H3 : forall k, In k (body_keys c3) <-> exists k0, In k0 (body_keys c) /\ k = key_map (km f) k0).
+  { intro k'. unfold c3. destruct (km f) as [|p r] eqn:Ekm; cbn [isnil].
+    - rewrite H2. split; [intro Hk; exists k'; split; [exact Hk | rewrite key_map_nil; reflexivity]
+                         | intros [k0 [Hk ->]]; rewrite key_map_nil; exact Hk].
+    - rewrite body_keys_kmap. split; intros [k0 [Hk E]]; exists k0; (split; [apply H2; exact Hk | auto]). }
+  inversion H; subst a. destruct (isnil (pm f)); [apply H3 | rewrite body_keys_resolve; apply H3].
+Qed.
+
+Definition rid_path (rid : option string) : list string := match rid with Some r => [r] | None => [] end.
+
+Lemma single_loop_keys kK kM c f rid s k :
+  single_loop kK kM c f rid = Ok s ->
+  (In k (body_keys s) <-> exists k0, In k0 (body_keys c) /\
+                                     k = key_map (km f) (key_prefix (ppath f) (key_prefix (rid_path rid) k0))).
+Proof.
+  unfold single_loop. destruct (any_loop kK kM c f) as [a| |] eqn:Ea; simpl; try discriminate.
+  intro H. inversion H; subst s. rewrite body_keys_rescope. split.
+  - intros [k1 [H1 ->]]. destruct rid as [r|].
+    + apply body_keys_rescope in H1. destruct H1 as [k2 [H2 ->]].
+      apply (any_loop_keys _ _ _ _ _ _ Ea) in H2. destruct H2 as [k0 [H0 ->]]. exists k0. split; [exact H0|].
+      simpl. rewrite !key_map_prefix_commute. reflexivity.
+    + apply (any_loop_keys _ _ _ _ _ _ Ea) in H1. destruct H1 as [k0 [H0 ->]]. exists k0. split; [exact H0|].
+      simpl. rewrite key_prefix_nil, key_map_prefix_commute. reflexivity.
+  - intros [k0 [H0 ->]]. destruct rid as [r|]; simpl.
+    + exists (key_prefix [r] (key_map (km f) k0)). split; [|rewrite !key_map_prefix_commute; reflexivity].
+      apply body_keys_rescope. exists (key_map (km f) k0). split; [|reflexivity].
+      apply (any_loop_keys _ _ _ _ _ _ Ea). exists k0. auto.
+    + exists (key_map (km f) k0). split; [|rewrite key_prefix_nil, key_map_prefix_commute; reflexivity].
+      apply (any_loop_keys _ _ _ _ _ _ Ea). exists k0. auto.
+Qed.
+
+Lemma no_elements_nil {A} (l : list A) : (forall x, ~ In x l) -> l = [].
+Proof. destruct l as [|a l]; [reflexivity|]. intro H. exfalso. apply (H a). left. reflexivity. Qed.
+
+Lemma body_keys_app a b : body_keys (a ++ b) = body_keys a ++ body_keys b.
+Proof. unfold body_keys. rewrite map_app, concat_app. reflexivity. Qed.
+Lemma body_keys_concat (ls : list circ) k : In k (body_keys (List.concat ls)) <-> exists s, In s ls /\ In k (body_keys s).
+Proof.
+  induction ls as [|s ls IH]; simpl.
+  - split; [intros [] | intros [s [[] _]]].
+  - rewrite body_keys_app, in_app_iff, IH. split.
+    + intros [H|[s' [H1 H2]]]; [exists s; auto | exists s'; auto].
+    + intros [s' [[->|H1] H2]]; [left; exact H2 | right; exists s'; auto].
+Qed.
+Lemma body_keys_repeat n (s : circ) k : (0 < n)%nat -> (In k (body_keys (repeat_app n s)) <-> In k (body_keys s)).
+Proof.
+  induction n as [|n IH]; intro Hn; [lia|]. simpl. rewrite body_keys_app, in_app_iff.
+  destruct n as [|n]; [simpl; tauto|]. rewrite IH by lia. tauto.
+Qed.
+
+Lemma not_meas_no_keys : forall o, op_is_meas o = false -> op_mkeys o = [].
+Proof.
+  induction o as [l|c f IH] using op_ind'; intro H.
+  - simpl in *. destruct (lmk l); [reflexivity | discriminate].
+  - rewrite op_mkeys_sub. assert (E : body_keys c = []).
+    { apply no_elements_nil. intros k Hk. apply body_keys_in in Hk. destruct Hk as [m [o [Hm [Ho Hk]]]].
+      rewrite Forall_forall in IH. specialize (IH m Hm). rewrite Forall_forall in IH.
+      rewrite (IH o Ho) in Hk; [destruct Hk|].
+      simpl in H. destruct (op_is_meas o) eqn:Eo; [|reflexivity]. exfalso.
+      assert (existsb (fun m => existsb op_is_meas m) c = true).
+      { apply existsb_exists. exists m. split; [exact Hm|]. apply existsb_exists. exists o. auto. }
+      congruence. }
+    rewrite E. unfold sub_keys. simpl. destruct (ids f); reflexivity.
+Qed.
+Lemma circ_not_meas_no_keys c : circ_is_meas c = false -> body_keys c = [].
+Proof.
+  intro H. apply no_elements_nil. intros k Hk. apply body_keys_in in Hk. destruct Hk as [m [o [Hm [Ho Hk]]]].
+  rewrite not_meas_no_keys in Hk; [destruct Hk|]. destruct (op_is_meas o) eqn:Eo; [|reflexivity]. exfalso.
+  assert (circ_is_meas c = true).
+  { apply existsb_exists. exists m. split; [exact Hm|]. apply existsb_exists. exists o. auto. }
+  congruence.
+Qed.
+
+(* mapped_circuit(deep=False): the operations of the mapped circuit report exactly the keys the CircuitOperation reports *)
+Lemma shallow_keys kK kM n c f body r :
+  mapped_circuit kK kM (S n) false c f = Ok body -> reps f = RInt r -> r <> 0 ->
+  forall k, In k (body_keys body) <-> In k (op_mkeys (OSub c f)).
+Proof.
+  intros H Hr Hnz k. cbn [mapped_circuit] in H. rewrite Hr in H.
+  destruct (until f) as [u|]; [discriminate|].
+  destruct (r =? 0) eqn:E0; [apply Z.eqb_eq in E0; contradiction|].
+  assert (Hpos : (0 < Z.abs_nat r)%nat) by lia.
+  rewrite op_mkeys_sub, sub_keys_in. unfold id_prefixes.
+  assert (Plain : forall s, single_loop kK kM c f None = Ok s ->
+            (In k (body_keys s) <-> exists k0 p, In k0 (key_nodup (body_keys c)) /\ In p [[]] /\
+                                               k = key_map (km f) (key_prefix (ppath f) (key_prefix p k0)))).
+  { intros s Hs. rewrite (single_loop_keys _ _ _ _ _ _ _ Hs). simpl. split.
+    - intros [k0 [H0 E]]. exists k0, []. split; [apply key_nodup_in; exact H0|]. split; [left; reflexivity | exact E].
+    - intros [k0 [p [H0 [[<-|[]] E]]]]. exists k0. split; [apply key_nodup_in; exact H0 | exact E]. }
+  destruct (ids f) as [l|] eqn:Eids.
+  - destruct (use_ids f) eqn:Eu; cbn [andb] in H.
+    + destruct (circ_is_meas c) eqn:Em.
+      * destruct (mapM (fun id => single_loop kK kM c f (Some id)) l) as [ls| |] eqn:El; simpl in H; try discriminate.
+        inversion H; subst body. apply mapM_ok in El. rewrite body_keys_concat. split.
+        -- intros [s [Hs Hk]]. destruct (Forall2_in_r _ _ _ El s Hs) as [id [Hid Hsl]].
+           apply (single_loop_keys _ _ _ _ _ _ _ Hsl) in Hk. destruct Hk as [k0 [H0 E]]. exists k0, [id].
+           split; [apply key_nodup_in; exact H0|]. split; [apply in_map_iff; exists id; auto | exact E].
+        -- intros [k0 [p [H0 [Hp E]]]]. apply in_map_iff in Hp. destruct Hp as [id [<- Hid]].
+           destruct (Forall2_in_l _ _ _ El id Hid) as [s [Hs Hsl]]. exists s. split; [exact Hs|].
+           apply (single_loop_keys _ _ _ _ _ _ _ Hsl). exists k0. split; [apply (proj1 (key_nodup_in _ _)) in H0; exact H0 | exact E].
+      * destruct (single_loop kK kM c f None) as [s| |] eqn:Es; simpl in H; try discriminate.
+        inversion H; subst body. rewrite body_keys_repeat by exact Hpos.
+        rewrite (single_loop_keys _ _ _ _ _ _ _ Es). rewrite (circ_not_meas_no_keys c Em). simpl.
+        split; [intros [k0 [[] _]] | intros [k0 [p [[] _]]]].
+    + destruct (single_loop kK kM c f None) as [s| |] eqn:Es; simpl in H; try discriminate.
+      inversion H; subst body. rewrite body_keys_repeat by exact Hpos. apply Plain. reflexivity.
+  - destruct (single_loop kK kM c f None) as [s| |] eqn:Es; simpl in H; try discriminate.
+    inversion H; subst body. rewrite body_keys_repeat by exact Hpos. apply Plain. reflexivity.
+Qed.
+
+(* ---- non-zero repetition counts are preserved by the transformations ---- *)
+Definition AllOps (P : op -> Prop) (c : circ) : Prop := forall m o, In m c -> In o m -> P o.
+Definition Nz (o : op) : Prop := op_ok o = true.
+
+Lemma nz_sub c f : Nz (OSub c f) <->
+  (exists r, reps f = RInt r /\ r <> 0 /\ (forall l, ids f = Some l -> List.length l = Z.abs_nat r)) /\ AllOps Nz c.
+Proof.
+  unfold Nz, AllOps. simpl. rewrite andb_true_iff, forallb_forall. unfold ids_ok. split.
+  - intros [H1 H2]. split.
+    + destruct (reps f) as [r|b s]; [|discriminate]. apply andb_true_iff in H1. destruct H1 as [H1 H1'].
+      exists r. split; [reflexivity|]. split; [apply negb_true_iff, Z.eqb_neq in H1; exact H1|].
+      intros l Hl. rewrite Hl in H1'. apply Nat.eqb_eq. exact H1'.
+    + intros m o Hm Ho. specialize (H2 m Hm). rewrite forallb_forall in H2. apply H2. exact Ho.
+  - intros [[r [Hr [Hnz Hl]]] H2]. split.
+    + rewrite Hr. apply andb_true_iff. split; [apply negb_true_iff, Z.eqb_neq; exact Hnz|].
+      destruct (ids f) as [l|]; [apply Nat.eqb_eq; apply Hl; reflexivity | reflexivity].
+    + intros m Hm. apply forallb_forall. intros o Ho. apply (H2 m o Hm Ho).
+Qed.
+
+Lemma nz_qmap g o : Nz o -> Nz (t_qmap g o).
+Proof. destruct o; unfold Nz; simpl; auto. Qed.
+Lemma nz_kmap kK kM m o : Nz o -> Nz (t_kmap kK kM m o).
+Proof. destruct o; unfold Nz; simpl; auto. Qed.
+Lemma nz_rescope kK kM p b o : Nz o -> Nz (t_rescope kK kM p b o).
+Proof. destruct o; unfold Nz; simpl; auto. Qed.
+Lemma nz_resolve pm o : Nz o -> Nz (t_resolve pm o).
+Proof.
+  destruct o as [l|c f]; unfold Nz; simpl; auto. unfold ids_ok. simpl. destruct (reps f) as [r|b s]; simpl; [auto|discriminate].
+Qed.
+Lemma nz_inv o o' : t_inv o = Ok o' -> Nz o -> Nz o'.
+Proof.
+  destruct o as [l|c f]; simpl.
+  - destruct (isnil (lmk l) && isnil (lcs l)); [|discriminate]. intro H. inversion H. unfold Nz. reflexivity.
+  - destruct (match reps f with RInt n => if 0 <? n then forallb (fun m => forallb op_invertible m) c else true
+                          | RSym _ _ => true end); [|discriminate].
+    intro H. inversion H. unfold Nz. simpl. unfold ids_ok. simpl. destruct (reps f) as [r|b s]; simpl; [|auto].
+    replace (- r =? 0) with (r =? 0).
+    + replace (Z.abs_nat (- r)) with (Z.abs_nat r) by lia. auto.
+    + destruct (r =? 0) eqn:E; symmetry.
+      * apply Z.eqb_eq in E. subst. reflexivity.
+      * apply Z.eqb_neq in E. apply Z.eqb_neq. lia.
+Qed.
+
+Lemma allops_map (P : op -> Prop) F c : (forall o, P o -> P (F o)) -> AllOps P c -> AllOps P (map (map F) c).
+Proof.
+  intros HF H m o Hm Ho. apply in_map_iff in Hm. destruct Hm as [m0 [<- Hm0]].
+  apply in_map_iff in Ho. destruct Ho as [o0 [<- Ho0]]. apply HF. apply (H m0 o0 Hm0 Ho0).
+Qed.
+Lemma allops_app (P : op -> Prop) a b : AllOps P a -> AllOps P b -> AllOps P (a ++ b).
+Proof. intros Ha Hb m o Hm Ho. apply in_app_iff in Hm. destruct Hm; [eapply Ha | eapply Hb]; eauto. Qed.
+Lemma allops_concat (P : op -> Prop) (ls : list circ) : (forall s, In s ls -> AllOps P s) -> AllOps P (List.concat ls).
+Proof.
+  induction ls as [|s ls IH]; intro H; simpl.
+  - intros m o [].
+  - apply allops_app; [apply H; left; reflexivity | apply IH; intros s' Hs'; apply H; right; exact Hs'].
+Qed.
+Lemma allops_repeat (P : op -> Prop) n (s : circ) : AllOps P s -> AllOps P (repeat_app n s).
+Proof. intro H. induction n as [|n IH]; simpl; [intros m o [] | apply allops_app; assumption]. Qed.
+Lemma allops_rescope kK kM path : forall c b, AllOps Nz c -> AllOps Nz (circ_rescope kK kM path b c).
+Proof.
+  induction c as [|m c IH]; intros b H; cbn [circ_rescope]; [intros m o []|].
+  intros m' o Hm Ho. destruct Hm as [<-|Hm].
+  - apply in_map_iff in Ho. destruct Ho as [o0 [<- Ho0]]. apply nz_rescope. apply (H m o0); [left; reflexivity | exact Ho0].
+  - apply (IH _ (fun m0 o0 Hm0 Ho0 => H m0 o0 (or_intror Hm0) Ho0) m' o Hm Ho).
+Qed.
+Lemma allops_inv c c' : circ_inv c = Ok c' -> AllOps Nz c -> AllOps Nz c'.
+Proof.
+  unfold circ_inv. intros H Hc m' o' Hm Ho. apply mapM_ok in H.
+  destruct (Forall2_in_r _ _ _ H m' Hm) as [m [Hmr Hmm]]. apply mapM_ok in Hmm.
+  destruct (Forall2_in_r _ _ _ Hmm o' Ho) as [o [Hom Hoo]]. apply (nz_inv o o' Hoo). apply (Hc m o); [apply in_rev; exact Hmr | exact Hom].
+Qed.
+
+Lemma any_loop_ok kK kM c f a : any_loop kK kM c f = Ok a -> AllOps Nz c -> AllOps Nz a.
+Proof.
+  unfold any_loop. intros H Hc.
+  set (c1 := if isnil (qm f) then c else map (map (t_qmap (zlookup (qm f)))) c) in *.
+  assert (H1 : AllOps Nz c1). { unfold c1. destruct (isnil (qm f)); [exact Hc | apply allops_map; [apply nz_qmap | exact Hc]]. }
+  destruct (if rep_negative (reps f) then circ_inv c1 else Ok c1) as [c2| |] eqn:E2; simpl in H; try discriminate.
+  assert (H2 : AllOps Nz c2).
+  { destruct (rep_negative (reps f)); [apply (allops_inv _ _ E2 H1) | inversion E2; subst; exact H1]. }
+  set (c3 := if isnil (km f) then c2 else map (moment_kmap kK kM (km f)) c2) in *.
+  assert (H3 : AllOps Nz c3).
+  { unfold c3. destruct (isnil (km f)); [exact H2|]. unfold moment_kmap. apply allops_map; [|exact H2].
+    intros o Ho. destruct (isnil (op_names o)); [exact Ho | apply nz_kmap; exact Ho]. }
+  inversion H; subst a. destruct (isnil (pm f)); [exact H3 | apply allops_map; [apply nz_resolve | exact H3]].
+Qed.
+Lemma single_loop_ok kK kM c f rid s : single_loop kK kM c f rid = Ok s -> AllOps Nz c -> AllOps Nz s.
+Proof.
+  unfold single_loop. destruct (any_loop kK kM c f) as [a| |] eqn:Ea; simpl; try discriminate.
+  intros H Hc. inversion H; subst s. apply allops_rescope. pose proof (any_loop_ok _ _ _ _ _ Ea Hc) as Ha.
+  destruct rid; [apply allops_rescope; exact Ha | exact Ha].
+Qed.
+Lemma shallow_nz kK kM n c f body : mapped_circuit kK kM (S n) false c f = Ok body -> AllOps Nz c -> AllOps Nz body.
+Proof.
+  intros H Hc. cbn [mapped_circuit] in H. destruct (until f); [discriminate|]. destruct (reps f) as [r|]; [|discriminate].
+  destruct (r =? 0); [inversion H; intros m o []|].
+  assert (Plain : forall s, single_loop kK kM c f None = Ok s -> AllOps Nz (repeat_app (Z.abs_nat r) s)).
+  { intros s Hs. apply allops_repeat. apply (single_loop_ok _ _ _ _ _ _ Hs Hc). }
+  destruct (ids f) as [l|].
+  - destruct (use_ids f && circ_is_meas c).
+    + destruct (mapM (fun id => single_loop kK kM c f (Some id)) l) as [ls| |] eqn:El; simpl in H; try discriminate.
+      inversion H; subst body. apply mapM_ok in El. apply allops_concat. intros s Hs.
+      destruct (Forall2_in_r _ _ _ El s Hs) as [id [_ Hsl]]. apply (single_loop_ok _ _ _ _ _ _ Hsl Hc).
+    + destruct (single_loop kK kM c f None) as [s| |] eqn:Es; simpl in H; try discriminate.
+      inversion H; subst body. apply Plain. reflexivity.
+  - destruct (single_loop kK kM c f None) as [s| |] eqn:Es; simpl in H; try discriminate.
+    inversion H; subst body. apply Plain. reflexivity.
+Qed.
+
+(* ---- the deep recursion: unroll every nested operation and zip ---- *)
+Definition unroll_op kK kM n (o : op) : res circ :=
+  match o with OLeaf _ => Ok [[o]] | OSub c' f' => mapped_circuit kK kM n true c' f' end.
+Definition deep_part kK kM n (body : circ) : res circ :=
+  do ms <- mapM (fun m => do cs <- mapM (unroll_op kK kM n) m; Ok (zip_all cs)) body; Ok (List.concat ms).
+
+Lemma mapped_deep_split kK kM n c f ms :
+  mapped_circuit kK kM (S n) true c f = Ok ms ->
+  exists body, mapped_circuit kK kM (S n) false c f = Ok body /\ deep_part kK kM n body = Ok ms.
+Proof.
+  cbn [mapped_circuit]. destruct (until f); [discriminate|]. destruct (reps f) as [r|]; [|discriminate].
+  destruct (r =? 0).
+  - intro H. inversion H. exists []. split; reflexivity.
+  - match goal with |- bind ?X _ = _ -> _ => destruct X as [body| |] eqn:EX end; simpl; try discriminate.
+    intro H. exists body. split; [reflexivity|]. unfold deep_part, unroll_op. exact H.
+Qed.
+
+Section Attr.
+  Variable A : Type.
+  Variable attr : op -> list A.          (* what an operation reports *)
+  Variable lattr : leaf -> list A.       (* what a leaf of the unrolled circuit carries *)
+  Hypothesis attr_leaf : forall l, attr (OLeaf l) = lattr l.
+  Definition flat_attr (c : circ) : list A := List.concat (map lattr (circ_leaves c)).
+  Definition body_attr (c : circ) : list A := List.concat (map (fun m => List.concat (map attr m)) c).
+
+  Lemma body_attr_in c a : In a (body_attr c) <-> exists m o, In m c /\ In o m /\ In a (attr o).
+  Proof.
+    unfold body_attr. rewrite in_concat_map. split.
+    - intros [m [Hm H]]. apply in_concat_map in H. destruct H as [o [Ho H]]. exists m, o. auto.
+    - intros [m [o [Hm [Ho H]]]]. exists m. split; [exact Hm|]. apply in_concat_map. exists o. auto.
+  Qed.
+
+  Lemma deep_part_attr kK kM n (P : op -> Prop) body ms :
+    (forall o co, P o -> unroll_op kK kM n o = Ok co -> forall a, In a (flat_attr co) <-> In a (attr o)) ->
+    deep_part kK kM n body = Ok ms -> AllOps P body ->
+    forall a, In a (flat_attr ms) <-> In a (body_attr body).
+  Proof.
+    intros IH H Hall a. unfold deep_part in H.
+    destruct (mapM (fun m => do cs <- mapM (unroll_op kK kM n) m; Ok (zip_all cs)) body) as [zs| |] eqn:E; simpl in H;
+      try discriminate.
+    inversion H; subst ms. apply mapM_ok in E. unfold flat_attr. rewrite in_concat_map, body_attr_in. split.
+    - intros [l [Hl Ha]]. apply concat_leaves_in in Hl. destruct Hl as [z [Hz Hlz]].
+      destruct (Forall2_in_r _ _ _ E z Hz) as [m [Hm Hmz]].
+      destruct (mapM (unroll_op kK kM n) m) as [cs| |] eqn:Ecs; simpl in Hmz; try discriminate.
+      inversion Hmz; subst z. apply mapM_ok in Ecs. apply zip_all_leaves_in in Hlz. destruct Hlz as [co [Hco Hlco]].
+      destruct (Forall2_in_r _ _ _ Ecs co Hco) as [o [Ho Hoc]]. exists m, o. split; [exact Hm|]. split; [exact Ho|].
+      apply (IH o co (Hall m o Hm Ho) Hoc). unfold flat_attr. apply in_concat_map. exists l. auto.
+    - intros [m [o [Hm [Ho Ha]]]]. destruct (Forall2_in_l _ _ _ E m Hm) as [z [Hz Hmz]].
+      destruct (mapM (unroll_op kK kM n) m) as [cs| |] eqn:Ecs; simpl in Hmz; try discriminate.
+      inversion Hmz; subst z. apply mapM_ok in Ecs. destruct (Forall2_in_l _ _ _ Ecs o Ho) as [co [Hco Hoc]].
+      apply (IH o co (Hall m o Hm Ho) Hoc) in Ha. unfold flat_attr in Ha. apply in_concat_map in Ha. destruct Ha as [l [Hl Ha]].
+      exists l. split; [|exact Ha]. apply concat_leaves_in. exists (zip_all cs). split; [exact Hz|].
+      apply zip_all_leaves_in. exists co. auto.
+  Qed.
+
+  Lemma flat_attr_single l a : In a (flat_attr [[OLeaf l]]) <-> In a (lattr l).
+  Proof. unfold flat_attr. simpl. rewrite app_nil_r. tauto. Qed.
+End Attr.
+
+(* D2, measurement keys: the keys a (nested) CircuitOperation reports are exactly the keys measured by its
+   completely unrolled circuit — for every nesting depth, repetition ids, maps and parent paths, provided no
+   repetition count in the nest is zero. *)
+Theorem unroll_keys kK kM : forall n c f ms,
+  mapped_circuit kK kM n true c f = Ok ms -> op_ok (OSub c f) = true ->
+  forall k, In k (keys_flat ms) <-> In k (op_mkeys (OSub c f)).
+Proof.
+  induction n as [|n IH]; intros c f ms H Hnz k; [discriminate|].
+  destruct (mapped_deep_split _ _ _ _ _ _ H) as [body [Hsh Hdp]].
+  apply nz_sub in Hnz. destruct Hnz as [[r [Hr [Hr0 _]]] Hc].
+  rewrite <- (shallow_keys _ _ _ _ _ _ _ Hsh Hr Hr0).
+  change (keys_flat ms) with (flat_attr mkey lmk ms). change (body_keys body) with (body_attr mkey op_mkeys body).
+  apply (deep_part_attr mkey op_mkeys lmk kK kM n Nz body ms); [|exact Hdp | apply (shallow_nz _ _ _ _ _ _ Hsh Hc)].
+  intros o co Ho Hu a. destruct o as [l|c' f']; simpl in Hu.
+  - inversion Hu; subst co. apply flat_attr_single.
+  - apply (IH c' f' co Hu Ho).
+Qed.
+
+(* ---- D2, qubits ---- *)
+Section BodyAttr.
+  Variable A : Type.
+  Variable attr : op -> list A.
+  Notation battr := (body_attr A attr).
+
+  Lemma battr_map_ext (F : op -> op) (R : A -> A -> Prop) c :
+    (forall o a, In a (attr (F o)) <-> exists a0, In a0 (attr o) /\ R a0 a) ->
+    forall a, In a (battr (map (map F) c)) <-> exists a0, In a0 (battr c) /\ R a0 a.
+  Proof.
+    intros HF a. rewrite body_attr_in. split.
+    - intros [m [o [Hm [Ho Hk]]]]. apply in_map_iff in Hm. destruct Hm as [m0 [E Hm0]]. subst.
+      apply in_map_iff in Ho. destruct Ho as [o0 [E Ho0]]. subst. apply HF in Hk. destruct Hk as [a0 [Ha0 Hr]].
+      exists a0. split; [|exact Hr]. apply body_attr_in. exists m0, o0. auto.
+    - intros [a0 [Ha0 Hr]]. apply body_attr_in in Ha0. destruct Ha0 as [m [o [Hm [Ho Hk]]]].
+      exists (map F m), (F o). split; [apply in_map; exact Hm|]. split; [apply in_map; exact Ho|].
+      apply HF. exists a0. auto.
+  Qed.
+  Lemma battr_map_same (F : op -> op) c : (forall o, attr (F o) = attr o) -> forall a, In a (battr (map (map F) c)) <-> In a (battr c).
+  Proof.
+    intros HF a. rewrite (battr_map_ext F eq).
+    - split; [intros [a0 [H ->]]; exact H | intro H; exists a; auto].
+    - intros o a'. rewrite HF. split; [intro H; exists a'; auto | intros [a0 [H ->]]; exact H].
+  Qed.
+  Lemma battr_app a b : battr (a ++ b) = battr a ++ battr b.
+  Proof. unfold body_attr. rewrite map_app, concat_app. reflexivity. Qed.
+  Lemma battr_concat (ls : list circ) x : In x (battr (List.concat ls)) <-> exists s, In s ls /\ In x (battr s).
+  Proof.
+    induction ls as [|s ls IH]; simpl.
+    - split; [intros [] | intros [s [[] _]]].
+    - rewrite battr_app, in_app_iff, IH. split.
+      + intros [H|[s' [H1 H2]]]; [exists s; auto | exists s'; auto].
+      + intros [s' [[->|H1] H2]]; [left; exact H2 | right; exists s'; auto].
+  Qed.
+  Lemma battr_repeat n (s : circ) x : (0 < n)%nat -> (In x (battr (repeat_app n s)) <-> In x (battr s)).
+  Proof.
+    induction n as [|n IH]; intro Hn; [lia|]. simpl. rewrite battr_app, in_app_iff.
+    destruct n as [|n]; [simpl; tauto|]. rewrite IH by lia. tauto.
+  Qed.
+  Lemma battr_inv c c' x : (forall o o', t_inv o = Ok o' -> attr o' = attr o) -> circ_inv c = Ok c' -> (In x (battr c') <-> In x (battr c)).
+  Proof.
+    unfold circ_inv. intros Hinv H. apply mapM_ok in H. rewrite !body_attr_in. split.
+    - intros [m' [o' [Hm [Ho Hk]]]]. destruct (Forall2_in_r _ _ _ H m' Hm) as [m [Hmr Hmm]].
+      apply mapM_ok in Hmm. destruct (Forall2_in_r _ _ _ Hmm o' Ho) as [o [Hom Hoo]].
+      exists m, o. split; [apply in_rev; exact Hmr|]. split; [exact Hom|]. rewrite <- (Hinv o o' Hoo). exact Hk.
+    - intros [m [o [Hm [Ho Hk]]]]. apply in_rev in Hm. destruct (Forall2_in_l _ _ _ H m Hm) as [m' [Hm' Hmm]].
+      apply mapM_ok in Hmm. destruct (Forall2_in_l _ _ _ Hmm o Ho) as [o' [Ho' Hoo]].
+      exists m', o'. split; [exact Hm'|]. split; [exact Ho'|]. rewrite (Hinv o o' Hoo). exact Hk.
+  Qed.
+  Lemma battr_rescope kK kM path : (forall b o, attr (t_rescope kK kM path b o) = attr o) ->
+    forall c b x, In x (battr (circ_rescope kK kM path b c)) <-> In x (battr c).
+  Proof.
+    intro Hr. induction c as [|m c IH]; intros b x; [simpl; tauto|].
+    cbn [circ_rescope]. unfold body_attr in *. cbn [map List.concat]. rewrite !in_app_iff, IH.
+    rewrite map_map. rewrite (map_ext _ attr (Hr b)). tauto.
+  Qed.
+End BodyAttr.
+
+Lemma zlookup_compose : forall dom m g q, In q dom -> zlookup (qmap_compose dom m g) q = g (zlookup m q).
+Proof.
+  induction dom as [|d dom IH]; intros m g q Hin; [destruct Hin|].
+  simpl. destruct (g (zlookup m d) =? d) eqn:E.
+  - destruct (d =? q) eqn:Edq.
+    + apply Z.eqb_eq in Edq. subst d. apply Z.eqb_eq in E. clear IH Hin.
+      induction dom as [|d' dom IH']; [simpl; symmetry; exact E|].
+      simpl. destruct (g (zlookup m d') =? d') eqn:E'; [exact IH'|].
+      simpl. destruct (d' =? q) eqn:Ed'q; [|exact IH'].
+      apply Z.eqb_eq in Ed'q. subst d'. rewrite E in E'. rewrite Z.eqb_refl in E'. discriminate.
+    + destruct Hin as [Hd|Hin]; [subst; rewrite Z.eqb_refl in Edq; discriminate | apply IH; exact Hin].
+  - simpl. destruct (d =? q) eqn:Edq.
+    + apply Z.eqb_eq in Edq. subst d. reflexivity.
+    + destruct Hin as [Hd|Hin]; [subst; rewrite Z.eqb_refl in Edq; discriminate | apply IH; exact Hin].
+Qed.
+
+Lemma op_qubits_sub c f : op_qubits (OSub c f) = map (zlookup (qm f)) (circ_qubits c).
+Proof. reflexivity. Qed.
+Lemma circ_qubits_in c q : In q (circ_qubits c) <-> In q (body_attr Z op_qubits c).
+Proof. unfold circ_qubits. apply zsort_in. Qed.
+
+Lemma qubits_qmap g o : op_qubits (t_qmap g o) = map g (op_qubits o).
+Proof.
+  destruct o as [l|c f]; [reflexivity|]. cbn [t_qmap]. rewrite !op_qubits_sub. cbn [qm set_qm].
+  rewrite map_map. apply map_ext_in. intros q Hq. apply zlookup_compose. exact Hq.
+Qed.
+Lemma qubits_inv o o' : t_inv o = Ok o' -> op_qubits o' = op_qubits o.
+Proof.
+  destruct o as [l|c f]; simpl.
+  - destruct (isnil (lmk l) && isnil (lcs l)); [|discriminate]. intro H. inversion H. reflexivity.
+  - destruct (match reps f with RInt n => if 0 <? n then forallb (fun m => forallb op_invertible m) c else true
+                          | RSym _ _ => true end); [|discriminate]. intro H. inversion H. reflexivity.
+Qed.
+Lemma qubits_kmap kK kM m o : op_qubits (if isnil (op_names o) then o else t_kmap kK kM m o) = op_qubits o.
+Proof. destruct (isnil (op_names o)); [reflexivity | destruct o; reflexivity]. Qed.
+Lemma qubits_resolve pm o : op_qubits (t_resolve pm o) = op_qubits o.
+Proof. destruct o; reflexivity. Qed.
+Lemma qubits_rescope kK kM p b o : op_qubits (t_rescope kK kM p b o) = op_qubits o.
+Proof. destruct o; reflexivity. Qed.
+
+Lemma zlookup_nil q : zlookup [] q = q.
+Proof. reflexivity. Qed.
+
+Lemma any_loop_qubits kK kM c f a q :
+  any_loop kK kM c f = Ok a ->
+  (In q (body_attr Z op_qubits a) <-> exists q0, In q0 (body_attr Z op_qubits c) /\ q = zlookup (qm f) q0).
+Proof.
+  unfold any_loop. intro H.
+  set (c1 := if isnil (qm f) then c else map (map (t_qmap (zlookup (qm f)))) c) in *.
+  assert (H1 : forall q, In q (body_attr Z op_qubits c1) <-> exists q0, In q0 (body_attr Z op_qubits c) /\ q = zlookup (qm f) q0).
+  { intro q'. unfold c1. destruct (qm f) as [|p r] eqn:Eq; cbn [isnil].
+    - split; [intro Hq; exists q'; auto | intros [q0 [Hq ->]]; exact Hq].
+    - rewrite (battr_map_ext Z op_qubits (t_qmap (zlookup (p :: r))) (fun q0 q => q = zlookup (p :: r) q0)); [tauto|].
+      intros o x. rewrite qubits_qmap, in_map_iff. split; intros [q0 [Ha Hb]]; exists q0; auto. }
+  destruct (if rep_negative (reps f) then circ_inv c1 else Ok c1) as [c2| |] eqn:E2; simpl in H; try discriminate.
+  assert (H2 : forall q, In q (body_attr Z op_qubits c2) <-> In q (body_attr Z op_qubits c1)).
+  { intro q'. destruct (rep_negative (reps f)); [apply (battr_inv Z op_qubits c1 c2 q' qubits_inv E2) | inversion E2; tauto]. }
+  set (c3 := if isnil (km f) then c2 else map (moment_kmap kK kM (km f)) c2) in *.
+  assert (H3 : forall q, In q (body_attr Z op_qubits c3) <-> In q (body_attr Z op_qubits c2)).
+  { intro q'. unfold c3. destruct (isnil (km f)); [tauto|]. unfold moment_kmap.
+    apply (battr_map_same Z op_qubits (fun o => if isnil (op_names o) then o else t_kmap kK kM (km f) o)).
+    intro o. apply qubits_kmap. }
+  inversion H; subst a. rewrite <- H1, <- H2, <- H3. destruct (isnil (pm f)); [tauto|].
+  apply (battr_map_same Z op_qubits (t_resolve (pm f))). apply qubits_resolve.
+Qed.
+
+Lemma single_loop_qubits kK kM c f rid s q :
+  single_loop kK kM c f rid = Ok s ->
+  (In q (body_attr Z op_qubits s) <-> exists q0, In q0 (body_attr Z op_qubits c) /\ q = zlookup (qm f) q0).
+Proof.
+  unfold single_loop. destruct (any_loop kK kM c f) as [a| |] eqn:Ea; simpl; try discriminate.
+  intro H. inversion H; subst s. rewrite (battr_rescope Z op_qubits kK kM (ppath f) (qubits_rescope kK kM (ppath f))).
+  destruct rid as [r|].
+  - rewrite (battr_rescope Z op_qubits kK kM [r] (qubits_rescope kK kM [r])). apply (any_loop_qubits _ _ _ _ _ _ Ea).
+  - apply (any_loop_qubits _ _ _ _ _ _ Ea).
+Qed.
+
+Lemma shallow_qubits kK kM n c f body r :
+  mapped_circuit kK kM (S n) false c f = Ok body -> reps f = RInt r -> r <> 0 ->
+  (forall l, ids f = Some l -> List.length l = Z.abs_nat r) ->
+  forall q, In q (body_attr Z op_qubits body) <-> In q (op_qubits (OSub c f)).
+Proof.
+  intros H Hr Hnz Hids q. cbn [mapped_circuit] in H. rewrite Hr in H.
+  destruct (until f) as [u|]; [discriminate|].
+  destruct (r =? 0) eqn:E0; [apply Z.eqb_eq in E0; contradiction|].
+  assert (Hpos : (0 < Z.abs_nat r)%nat) by lia.
+  assert (RHS : In q (op_qubits (OSub c f)) <-> exists q0, In q0 (body_attr Z op_qubits c) /\ q = zlookup (qm f) q0).
+  { rewrite op_qubits_sub, in_map_iff. split; intros [q0 [Ha Hb]]; exists q0; [split; [apply circ_qubits_in; exact Hb | auto]
+                                                                             | split; [auto | apply circ_qubits_in; exact Ha]]. }
+  rewrite RHS.
+  assert (Plain : forall s, single_loop kK kM c f None = Ok s ->
+            (In q (body_attr Z op_qubits (repeat_app (Z.abs_nat r) s)) <->
+             exists q0, In q0 (body_attr Z op_qubits c) /\ q = zlookup (qm f) q0)).
+  { intros s Hs. rewrite battr_repeat by exact Hpos. apply (single_loop_qubits _ _ _ _ _ _ _ Hs). }
+  destruct (ids f) as [l|] eqn:Eids.
+  - destruct (use_ids f && circ_is_meas c) eqn:Eu.
+    + destruct (mapM (fun id => single_loop kK kM c f (Some id)) l) as [ls| |] eqn:El; simpl in H; try discriminate.
+      inversion H; subst body. apply mapM_ok in El. rewrite battr_concat. split.
+      * intros [s [Hs Hq]]. destruct (Forall2_in_r _ _ _ El s Hs) as [id [Hid Hsl]].
+        apply (single_loop_qubits _ _ _ _ _ _ _ Hsl). exact Hq.
+      * intro Hq.
+        destruct l as [|id l'].
+        -- (* no ids although the count is not zero: excluded *)
+           exfalso. specialize (Hids [] eq_refl). simpl in Hids. lia.
+        -- destruct (Forall2_in_l _ _ _ El id (or_introl eq_refl)) as [s [Hs Hsl]]. exists s. split; [exact Hs|].
+           apply (single_loop_qubits _ _ _ _ _ _ _ Hsl). exact Hq.
+    + destruct (single_loop kK kM c f None) as [s| |] eqn:Es; simpl in H; try discriminate.
+      inversion H; subst body. apply Plain. reflexivity.
+  - destruct (single_loop kK kM c f None) as [s| |] eqn:Es; simpl in H; try discriminate.
+    inversion H; subst body. apply Plain. reflexivity.
+Qed.
+
+(* D2, qubits: the qubits a nested CircuitOperation reports are exactly the qubits its unrolled circuit acts on *)
+Theorem unroll_qubits kK kM : forall n c f ms,
+  mapped_circuit kK kM n true c f = Ok ms -> op_ok (OSub c f) = true ->
+  forall q, In q (qubits_flat ms) <-> In q (op_qubits (OSub c f)).
+Proof.
+  induction n as [|n IH]; intros c f ms H Hnz q; [discriminate|].
+  destruct (mapped_deep_split _ _ _ _ _ _ H) as [body [Hsh Hdp]].
+  apply nz_sub in Hnz. destruct Hnz as [[r [Hr [Hr0 Hids]]] Hc].
+  rewrite <- (shallow_qubits _ _ _ _ _ _ _ Hsh Hr Hr0 Hids).
+  unfold qubits_flat. rewrite zsort_in. change (List.concat (map lqs (circ_leaves ms))) with (flat_attr Z lqs ms).
+  apply (deep_part_attr Z op_qubits lqs kK kM n Nz body ms); [|exact Hdp | apply (shallow_nz _ _ _ _ _ _ Hsh Hc)].
+  intros o co Ho Hu a. destruct o as [l|c' f']; simpl in Hu.
+  - inversion Hu; subst co. apply flat_attr_single.
+  - specialize (IH c' f' co Hu Ho a). unfold qubits_flat in IH. rewrite zsort_in in IH. exact IH.
+Qed.
+
+(* F7: with a zero repetition count the statement fails — the operation still reports the keys of its body *)
+Definition zero_rep_witness : op :=
+  OSub [[OLeaf (Leaf 10 false [0] [MK [] "a"] [] [])]] (SubF (RInt 0) None false [] [] [] [] [] None).
+Theorem unroll_keys_refuted_zero : forall kK kM,
+  mapped_circuit kK kM 2 true [[OLeaf (Leaf 10 false [0] [MK [] "a"] [] [])]] (SubF (RInt 0) None false [] [] [] [] [] None) = Ok []
+  /\ op_mkeys zero_rep_witness = [MK [] "a"] /\ op_is_meas zero_rep_witness = true.
+Proof. intros kK kM. repeat split. Qed.
+
+(* ---- D4: constructor compositions ---- *)
+Lemma qmap_compose_ext : forall dom m m' g, (forall q, In q dom -> zlookup m q = zlookup m' q) ->
+  qmap_compose dom m g = qmap_compose dom m' g.
+Proof.
+  induction dom as [|d dom IH]; intros m m' g H; [reflexivity|]. simpl.
+  rewrite (H d (or_introl eq_refl)). rewrite (IH m m' g (fun q Hq => H q (or_intror Hq))). reflexivity.
+Qed.
+
+Lemma qmap_compose_twice D m g1 g2 : forall dom0, (forall q, In q dom0 -> In q D) ->
+  qmap_compose dom0 (qmap_compose D m g1) g2 = qmap_compose dom0 m (fun q => g2 (g1 q)).
+Proof.
+  induction dom0 as [|d dom0 IH]; intro Hsub; [reflexivity|]. simpl.
+  rewrite (zlookup_compose D m g1 d (Hsub d (or_introl eq_refl))).
+  rewrite (IH (fun q Hq => Hsub q (or_intror Hq))). reflexivity.
+Qed.
+
+(* with_qubit_mapping twice = with_qubit_mapping of the composed function: the stored dicts are equal *)
+Theorem qmap_twice g1 g2 o : t_qmap g2 (t_qmap g1 o) = t_qmap (fun q => g2 (g1 q)) o.
+Proof.
+  destruct o as [l|c f]; simpl.
+  - rewrite map_map. reflexivity.
+  - unfold set_qm. simpl. rewrite (qmap_compose_twice (circ_qubits c) (qm f) g1 g2 (circ_qubits c) (fun q H => H)). reflexivity.
+Qed.
+
+(* key maps applied one after the other act on the reported keys as the composition *)
+Theorem kmap_twice kK kM m1 m2 o k :
+  In k (op_mkeys (t_kmap kK kM m2 (t_kmap kK kM m1 o))) <-> exists k0, In k0 (op_mkeys o) /\ k = key_map m2 (key_map m1 k0).
+Proof.
+  rewrite mkeys_kmap. split.
+  - intros [k1 [H1 ->]]. apply mkeys_kmap in H1. destruct H1 as [k0 [H0 ->]]. exists k0. auto.
+  - intros [k0 [H0 ->]]. exists (key_map m1 k0). split; [|reflexivity]. apply mkeys_kmap. exists k0. auto.
+Qed.
+
+(* ... and the dict stored after two with_measurement_key_mapping calls sends every touched name to the composition *)
+Theorem kmap_dict_twice dom km m1 m2 s : In s dom ->
+  name_map (kmap_compose dom (kmap_compose dom km m1) m2) s = name_map m2 (name_map m1 (name_map km s)).
+Proof. intro H. rewrite lookup_compose by exact H. rewrite lookup_compose by exact H. reflexivity. Qed.
+
+(* repeat(-1) twice (op ** -1 ** -1) gives the operation back *)
+Theorem inv_twice o o1 o2 : t_inv o = Ok o1 -> t_inv o1 = Ok o2 -> o2 = o.
+Proof.
+  destruct o as [l|c f]; simpl.
+  - destruct (isnil (lmk l) && isnil (lcs l)) eqn:E; [|discriminate]. intro H. inversion H; subst o1. simpl. rewrite E.
+    intro H2. inversion H2. rewrite negb_involutive. destruct l; reflexivity.
+  - destruct (match reps f with RInt n => if 0 <? n then forallb (fun m => forallb op_invertible m) c else true
+                          | RSym _ _ => true end); [|discriminate].
+    intro H. inversion H; subst o1. simpl.
+    destruct (match rep_neg (reps f) with RInt n => if 0 <? n then forallb (fun m => forallb op_invertible m) c else true
+                          | RSym _ _ => true end); [|discriminate].
+    intro H2. inversion H2. f_equal. destruct f as [r i u q k p pp e un]. unfold set_reps. simpl. f_equal.
+    destruct r as [n|b s]; simpl; [rewrite Z.opp_involutive | rewrite negb_involutive]; reflexivity.
+Qed.
+
+(* nested rescoping composes by concatenation of the paths *)
+Theorem rescope_twice kK kM p1 b1 p2 b2 o :
+  op_mkeys (t_rescope kK kM p1 b1 (t_rescope kK kM p2 b2 o)) = map (key_prefix (p1 ++ p2)) (op_mkeys o).
+Proof.
+  rewrite !mkeys_rescope, map_map. apply map_ext. intro k. apply key_prefix_assoc.
+Qed.
+Theorem rescope_twice_path kK kM p1 b1 p2 b2 c f :
+  exists e, t_rescope kK kM p1 b1 (t_rescope kK kM p2 b2 (OSub c f)) = OSub c (set_scope f ((p1 ++ p2) ++ ppath f) e).
+Proof. simpl. eexists. unfold set_scope. simpl. rewrite app_assoc. reflexivity. Qed.
+
+(* with_params twice: every symbol of the wrapped circuit is resolved by the first mapping, then by the second *)
+Lemma plookup_compose : forall dom m1 m2 s, In s dom ->
+  presolve (pmap_compose dom m1 m2) (PSym s) = presolve m2 (presolve m1 (PSym s)).
+Proof.
+  induction dom as [|d dom IH]; intros m1 m2 s Hin; [destruct Hin|].
+  cbn [pmap_compose].
+  destruct (String.eqb d s) eqn:Eds.
+  - apply String.eqb_eq in Eds. subst d. clear Hin.
+    destruct (presolve m2 (presolve m1 (PSym s))) as [t|v] eqn:Ev.
+    + destruct (String.eqb t s) eqn:Ets.
+      * apply String.eqb_eq in Ets. subst t.
+        (* identity entry dropped: later occurrences of s in dom are dropped again *)
+        clear IH. induction dom as [|d' dom IH']; [reflexivity|]. cbn [pmap_compose].
+        destruct (presolve m2 (presolve m1 (PSym d'))) as [t'|v'] eqn:Ev'.
+        -- destruct (String.eqb t' d') eqn:Et'; [exact IH'|]. simpl. destruct (String.eqb d' s) eqn:Ed's; [|exact IH'].
+           apply String.eqb_eq in Ed's. subst d'. rewrite Ev in Ev'. inversion Ev'; subst t'. rewrite String.eqb_refl in Et'. discriminate.
+        -- simpl. destruct (String.eqb d' s) eqn:Ed's; [|exact IH'].
+           apply String.eqb_eq in Ed's. subst d'. rewrite Ev in Ev'. discriminate.
+      * simpl. rewrite String.eqb_refl. reflexivity.
+    + simpl. rewrite String.eqb_refl. reflexivity.
+  - destruct Hin as [Hd|Hin]; [subst; rewrite String.eqb_refl in Eds; discriminate|].
+    destruct (presolve m2 (presolve m1 (PSym d))) as [t|v].
+    + destruct (String.eqb t d); [apply IH; exact Hin|]. simpl. rewrite Eds. apply IH. exact Hin.
+    + simpl. rewrite Eds. apply IH. exact Hin.
+Qed.
+
+Theorem resolve_twice_leaf m1 m2 l :
+  t_resolve m2 (t_resolve m1 (OLeaf l)) =
+  OLeaf (Leaf (uid l) (sgn l) (lqs l) (lmk l) (lcs l) (map (fun p => presolve m2 (presolve m1 p)) (lps l))).
+Proof. simpl. rewrite map_map. reflexivity. Qed.
+
+(* ---- rescoping never captures a key bound later: the first part of a circuit is rescoped independently of
+   what follows, and what follows sees exactly the keys bound before it ---- *)
+Theorem rescope_app kK kM path : forall c1 c2 b,
+  circ_rescope kK kM path b (c1 ++ c2) =
+  circ_rescope kK kM path b c1 ++ circ_rescope kK kM path (b ++ List.concat (map moment_mkeys (circ_rescope kK kM path b c1))) c2.
+Proof.
+  induction c1 as [|m c1 IH]; intros c2 b; simpl.
+  - rewrite app_nil_r. reflexivity.
+  - rewrite IH. rewrite app_assoc. reflexivity.
+Qed.
+
+(* the operations of one moment are rescoped against the keys bound before the moment only *)
+Theorem rescope_moment_local kK kM path b m c :
+  exists b', circ_rescope kK kM path b (m :: c) = map (t_rescope kK kM path b) m :: circ_rescope kK kM path b' c.
+Proof. eexists. reflexivity. Qed.
+
+(* ---- D5: repeat_until stops after the least positive number of passes after which the condition holds ---- *)
+Section UntilProofs.
+  Variable St : Type.
+  Variable body : St -> St.
+  Variable cond : St -> bool.
+
+  Theorem repeat_until_unroll : forall fuel s t,
+    act_until St body cond fuel s = Ok t ->
+    exists k, (1 <= k <= fuel)%nat /\ t = Nat.iter k body s /\ cond t = true /\
+              forall j, (1 <= j < k)%nat -> cond (Nat.iter j body s) = false.
+  Proof.
+    induction fuel as [|n IH]; intros s t H; simpl in H; [discriminate|].
+    destruct (cond (body s)) eqn:E.
+    - inversion H; subst t. exists 1%nat. split; [lia|]. split; [reflexivity|]. split; [exact E|]. intros j Hj. lia.
+    - destruct (IH (body s) t H) as [k [Hk [Ht [Hc Hl]]]]. exists (S k). split; [lia|].
+      assert (Sh : forall j, Nat.iter j body (body s) = Nat.iter (S j) body s).
+      { induction j as [|j IHj]; [reflexivity|]. simpl. simpl in IHj. rewrite IHj. reflexivity. }
+      split; [rewrite <- Sh; exact Ht|]. split; [exact Hc|]. intros j Hj.
+      destruct j as [|j]; [lia|]. destruct j as [|j]; [exact E|]. rewrite <- Sh. apply Hl. lia.
+  Qed.
+
+  Theorem repeat_until_complete : forall k s, (1 <= k)%nat -> cond (Nat.iter k body s) = true ->
+    (forall j, (1 <= j < k)%nat -> cond (Nat.iter j body s) = false) ->
+    forall fuel, (k <= fuel)%nat -> act_until St body cond fuel s = Ok (Nat.iter k body s).
+  Proof.
+    induction k as [|k IH]; intros s Hk Hc Hl fuel Hf; [lia|].
+    destruct fuel as [|n]; [lia|]. simpl.
+    assert (Sh : forall j, Nat.iter j body (body s) = Nat.iter (S j) body s).
+    { induction j as [|j IHj]; [reflexivity|]. simpl. simpl in IHj. rewrite IHj. reflexivity. }
+    destruct k as [|k].
+    - simpl in Hc. rewrite Hc. reflexivity.
+    - pose proof (Hl 1%nat ltac:(lia)) as H1. simpl in H1. rewrite H1. rewrite <- Sh. apply IH; [lia | rewrite Sh; exact Hc | | lia].
+      intros j Hj. rewrite Sh. apply Hl. lia.
+  Qed.
+End UntilProofs.
